@@ -1124,6 +1124,14 @@ wait:
 	if !readerGone && conn.VerifErrChLen() < 10 {
 		atomic.AddInt32(&hangs, 1) // neither did the reader end nor did it keep reporting: it is stuck
 	}
+	// a reader that has ended will deliver nothing more: what is queued comes at once, waiting longer is pointless
+	patience := 250 * time.Millisecond
+	if readerGone {
+		patience = 15 * time.Millisecond
+		if panicked {
+			atomic.AddInt32(&hangs, 1) // a crashed reader: the run is a violation anyway, do not pay for thousands of them
+		}
+	}
 	// channel errors first: once the package queue is empty NextPackage would pick one of the queued errors at random
 	cerrs := 0
 	for ch.VerifNextErr() != nil {
@@ -1133,7 +1141,7 @@ wait:
 		n := 0
 		class := 0
 		for i := 0; i < 10000; i++ {
-			ctx, cancel := context.WithTimeout(context.Background(), 250*time.Millisecond)
+			ctx, cancel := context.WithTimeout(context.Background(), patience)
 			_, err := ch.NextPackageUntil(ctx, true, nil)
 			cancel()
 			if err == nil || err == io.EOF {
@@ -1154,7 +1162,7 @@ wait:
 	// received packets must come before the error, although the error has been queued for a long time by now
 	dl := sx.L{}
 	for {
-		ctx, cancel := context.WithTimeout(context.Background(), 250*time.Millisecond)
+		ctx, cancel := context.WithTimeout(context.Background(), patience)
 		pkg, err := ch.NextPackage(ctx, true)
 		cancel()
 		if err != nil {
@@ -1166,7 +1174,7 @@ wait:
 	// each with a short context of its own (they return at once when an error is queued)
 	told := 0
 	for i := 0; i < 3; i++ {
-		ctx, cancel := context.WithTimeout(context.Background(), 250*time.Millisecond)
+		ctx, cancel := context.WithTimeout(context.Background(), patience)
 		_, err := ch.NextPackage(ctx, true)
 		cancel()
 		if err != nil && !errors.Is(err, context.DeadlineExceeded) {
